@@ -25,7 +25,7 @@ class Game(AsyncMode):
 
     __slots__ = ["_balls_in_play", "player_list", "slam_tilted", "tilted", "ending", "num_players",
                  "_stopping_modes", "_stopping_queue", "_end_ball_event", "_at_least_one_player_event",
-                 "balls_per_game", "max_players"]
+                 "balls_per_game", "max_players", "_player_add_pending"]
 
     def __init__(self, *args, **kwargs):
         """Initialize game."""
@@ -44,6 +44,7 @@ class Game(AsyncMode):
         self._at_least_one_player_event = None  # type: asyncio.Event
         self.balls_per_game = None
         self.max_players = None
+        self._player_add_pending = False
 
         self.machine.events.add_handler('mode_{}_stopping'.format(self.name), self._stop_game_modes)
 
@@ -58,6 +59,7 @@ class Game(AsyncMode):
         self.tilted = False
         self.ending = False
         self.num_players = 0
+        self._player_add_pending = False
         self._balls_in_play = 0
         self._stopping_modes = []
         self._stopping_queue = None
@@ -557,6 +559,12 @@ class Game(AsyncMode):
             self.debug_log("Current ball is after Ball 1. Cannot add player.")
             return False
 
+        if self._player_add_pending:
+            # the previous request has not been completed (and charged) yet
+            self.debug_log("Another player is being added. Cannot add player.")
+            return False
+
+        self._player_add_pending = True
         self.machine.events.post_boolean('player_add_request',
                                          callback=self._player_add_request_complete)
         '''event: player_add_request
@@ -574,6 +582,7 @@ class Game(AsyncMode):
         del kwargs
         if ev_result is False:
             self.debug_log("Request to add player has been denied.")
+            self._player_add_pending = False
             return False
 
         new_player_number = len(self.player_list) + 1
@@ -651,11 +660,11 @@ class Game(AsyncMode):
 
         return True
 
-    @staticmethod
-    def _player_added(player, num):
+    def _player_added(self, player, num):
         # Now that the player_added event has been posted, enable player
         # variable events and send all initial values
         del num
+        self._player_add_pending = False
         player.enable_events(True, True)
 
     async def _start_player_turn(self):
